@@ -345,4 +345,52 @@ def run_case(spec, ctx):
         a, b = spec["pair"]
         if real(a, b) != ref(a, b):
             ctx.violation("differs-from-rpm-reference", {"a": a, "b": b, "got": real(a, b), "rpm": ref(a, b)})
+    elif "evr" in spec:
+        from insights.parsers.rpm_vercmp import rpm_version_compare
+        sgn = lambda x: (x > 0) - (x < 0)
+        A, B = [tuple(x) for x in spec["evr"]]
+        pa, pb = mkrpm("pkg", A), mkrpm("pkg", B)
+        na = (0 if A[0] in (None, "(none)") else A[0], A[1], A[2])
+        nb = (0 if B[0] in (None, "(none)") else B[0], B[1], B[2])
+        exp = ref_evr(na, nb)
+        got = rpm_version_compare(pa, pb)
+        if sgn(got) != exp:
+            ctx.violation("evr-comparison-differs-from-rpm", {"a": A, "b": B, "got": got, "rpm": exp})
+        ops = {"lt": pa < pb, "eq": pa == pb, "gt": pa > pb, "le": pa <= pb, "ge": pa >= pb, "ne": pa != pb}
+        want = {"lt": exp < 0, "eq": exp == 0, "gt": exp > 0, "le": exp <= 0, "ge": exp >= 0, "ne": exp != 0}
+        if ops != want:
+            ctx.violation("rich-comparison-operators-disagree", {"a": A, "b": B, "operators": ops, "expected": want})
+    elif "list" in spec and spec["list"]:
+        from insights.parsers.installed_rpms import RpmList
+        evs = [tuple(x) for x in spec["list"]]
+
+        class OwnList(RpmList):
+            def __init__(self, pk):
+                self.packages = pk
+        own = OwnList({"pk": [mkrpm("pk", e) for e in evs]})
+        for fname in ("get_max", "get_min"):
+            m = getattr(own, fname)("pk")
+            me = (int(m.epoch), m.version, m.release)
+            for o in evs:
+                c = ref_evr(o, me)
+                if (fname == "get_max" and c > 0) or (fname == "get_min" and c < 0):
+                    ctx.violation("extremum-is-not-extreme", {"function": fname, "returned": me, "better": o, "all": evs})
+                    break
+    elif "alphabet" in spec:
+        import functools
+        import itertools
+        alpha, maxlen = spec["alphabet"], spec.get("maxlen", 3)
+        strings = [""]
+        for L in range(1, maxlen + 1):
+            strings.extend("".join(t) for t in itertools.product(alpha, repeat=L))
+        order = sorted(strings, key=functools.cmp_to_key(real))
+        rank = [0] * len(order)
+        for i in range(1, len(order)):
+            rank[i] = rank[i - 1] + (1 if real(order[i - 1], order[i]) != 0 else 0)
+        for i, a in enumerate(order):
+            for j, b in enumerate(order):
+                exp = -1 if rank[i] < rank[j] else (1 if rank[i] > rank[j] else 0)
+                if real(a, b) != exp:
+                    ctx.violation("not-a-total-order-on-this-alphabet", {"alphabet": alpha, "a": a, "b": b, "cmp(a,b)": real(a, b), "cmp(b,a)": real(b, a)})
+                    return True
     return True
